@@ -6,13 +6,13 @@ HERE = os.path.dirname(os.path.dirname(os.path.abspath(__file__)))
 ENUM = "bounded exhaustive enumeration of a listed finite input domain, executed on the real code, each case compared with a reference model (small-scope model checking of a sequential library)"
 CHECKS = {
   # id: (category, technique, level text, level note, design ref)
-  "C01": ("exploration", "bounded exhaustive input enumeration, differential over three rendering paths on reference targets",
+  "C01": ("exploration", "bounded exhaustive input enumeration, differential over three rendering paths on reference targets that consume the handed iterators in different legal ways (next / for_each / nth / count / last / skip+step_by)",
           "Every drawable of the listed catalogue (all primitive kinds x sizes up to N x styles S(W) x positions, all vertex triples of small grids, polylines up to 4/5 vertices, images of 7 raw widths x 2 data orders x sub-images, text) is rendered through draw() on a draw_iter-only target inheriting the trait defaults, draw() on a native target and pixels() via draw_iter; the unbounded pixel maps must be equal. Exhaustive up to the listed bounds.",
           "The harness's native target is the reference for the documented meaning of fill_contiguous/fill_solid/clear; bounded catalogue.", "6/C01"),
   "C02": ("exploration", "bounded exhaustive input enumeration, containment of every recorded pixel in bounding_box()",
           "Every drawable of the catalogue plus text over all 292 built-in fonts x decorations x baselines x alignments x line heights is drawn on unbounded recording targets; every pixel must lie in bounding_box(), transparent styles must draw nothing. Exhaustive up to the listed bounds; fonts are covered completely.",
           "Only containment (not tightness) is asserted; Rectangle::contains is trusted (C16).", "6/C02"),
-  "C03": ("model_checking", "explicit-state BFS over operation histories; transition function = the real adapters; reference = set-theoretic model",
+  "C03": ("model_checking", "explicit-state BFS over operation histories; transition function = the real adapters; reference = set-theoretic model; parents that consume the adapters' iterators in every legal way",
           "State = pixel map of the innermost parent. Every (adapter stack up to depth 2/3 over 25 adapters, operation of 44) from 16 initial states, and all histories of length 2/3 over a reduced alphabet, are executed through the real clipped/cropped/translated/color_converted adapters and trait defaults; every transition is compared with the composed set-theoretic model (state, call confinement, reported boxes).",
           "Rectangle::intersection/translate are trusted primitives of the model (C16); bounded alphabet and depth.", "6/C03"),
   "C04": ("fault_enumeration", "exhaustive fault enumeration: for every k the run in which the k-th target call fails",
